@@ -72,6 +72,7 @@ def run(ctx):
     os.makedirs(fakebin)
     shutil.copy(probe, os.path.join(fakebin, "sh"))
     arch = subprocess.run(["grep", "MACHINE_ARCH", os.path.join(d, "config.h")], capture_output=True, text=True).stdout.split('"')[1]
+    machine = subprocess.run(["grep", "-w", "MACHINE", os.path.join(d, "config.h")], capture_output=True, text=True).stdout.split('"')[1]
     argv_out = os.path.join(root, "argv.out")
     reqs, obs = [], []
     kinds = {}
@@ -240,8 +241,16 @@ def run(ctx):
         with open(conf, "w") as f:
             f.write(body)
         vs = {"step-name": rng.choice(["env", "a b", "lib/libc"]), "step-exit": str(rng.choice([0, 1, 124]))}
+        # -v may also name a variable that only has a default (arch, machine, exec-dir, ...): the given value wins
+        if t % 5 == 2:
+            vs.update(rng.choice([{"arch": "m88k"}, {"machine": "vax", "arch": "vax"}, {"exec-dir": "/elsewhere"}]))
+            hook = hook + ["${arch}/${machine}", "${exec-dir}"] if hook else hook
+            if has and hook:
+                body = 'canvas-name "the name"\ncanvas-dir "%s"\nstep "s0" command { "true" }\n' % root + "hook { %s }\n" % " ".join(conf_quote(a) for a in hook)
+                with open(conf, "w") as f:
+                    f.write(body)
         env = {"canvas-name": "the name", "robsddir": root, "canvas-dir": root, "keep-dir": "${robsddir}/attic", "tmp-dir": "${builddir}/tmp",
-               "builddir": bdir, "trace": "", "exec-dir": stubs, "skip": "", "arch": arch, "report-path": "${builddir}/report"}
+               "builddir": bdir, "trace": "", "exec-dir": stubs, "skip": "", "arch": arch, "machine": machine, "report-path": "${builddir}/report"}
         env.update(vs)
         code = rng.choice([0, 0, 3])
         argv = [os.path.join(d, "robsd-hook"), "-m", "canvas", "-C", conf] + sum([["-v", "%s=%s" % kv] for kv in vs.items()], [])
